@@ -577,6 +577,25 @@ pub fn c13b_case(fam: &str, idx: usize, seed: u64) -> Option<Case> {
     let case = format!("C13b:{}:{}:{}", fam, idx, seed);
     let mut rng = Rng::derive(seed, 1301, idx as u64);
     match fam {
+        "one" | "two" => {
+            // every single request / every ordered pair of requests of the C13a request set, carried by a
+            // transaction over a clean link (alternating modes)
+            let reqs = crate::fs::c13_requests();
+            let n = reqs.len();
+            let list = if fam == "one" { vec![reqs.get(idx)?.clone()] } else { vec![reqs.get(idx / n)?.clone(), reqs[idx % n].clone()] };
+            let mut k = Knobs::base();
+            k.seg = 32;
+            if idx % 3 == 1 {
+                k.mode = unack();
+                k.closure = idx % 2 == 0;
+            }
+            let c = content(&mut rng, 70, idx as u64 % 5, 32, 0xC13);
+            let mut sc = two_party(&case, seed ^ idx as u64, &k, c);
+            sc.transfers[0].requests = list.clone();
+            sc.plant = vec![(1, "f1".into(), Some(b"one".to_vec())), (1, "f2".into(), Some(b"two-two".to_vec())), (1, "d1".into(), None), (1, "d1/f3".into(), Some(b"three".to_vec())), (1, "d2".into(), None)];
+            let desc = format!("{} size=70 requests={:?} clean link", k.describe(), list.iter().map(|r| format!("{:?}({},{})", r.action_code, r.first_filename, r.second_filename)).collect::<Vec<_>>());
+            Some(Case::from(sc, &k, desc, true))
+        }
         "rand" => {
             let mut k = rand_knobs(&mut rng, false);
             k.seg = *rng.pick(&[32u16, 64, 256]);
@@ -726,13 +745,23 @@ pub fn run_c13b(rep_out: &mut Report, tier: &str, seed: u64, replay: Option<&str
     let rep = run_cases(nr, "c13b-rand", move |i| c13b_case("rand", i, seed), judge_c13b);
     rep_out.merge(rep);
     rep_out.add("cases:rand", nr as u64);
+    let n1 = crate::fs::c13_requests().len();
+    rep_out.merge(run_cases(n1, "c13b-one", move |i| c13b_case("one", i, seed), judge_c13b));
+    rep_out.add("cases:one", n1 as u64);
+    // pairs: complete in thorough, every 23rd (by seed) in quick
+    let n2 = n1 * n1;
+    let stride = if tier == "thorough" { 1 } else { 23 };
+    let off = (seed % stride as u64) as usize;
+    let m2 = (n2 - off + stride - 1) / stride;
+    rep_out.merge(run_cases(m2, "c13b-two", move |i| c13b_case("two", off + i * stride, seed), judge_c13b));
+    rep_out.add("cases:two", m2 as u64);
 }
 
 pub fn meta_c13b() -> Meta {
     Meta {
         property: "C13",
         level: "exploration",
-        rule: "end to end: seeded transactions (both modes, random knobs and sizes) carrying 1-5 filestore requests over a namespace of files and directories planted at the receiver, always including a non-idempotent append of the delivered file; faults within the C02 hypothesis, or the loss of every PDU of one kind (no delivery), or a withheld ACK(Finished) with a late re-delivery (C04 window). Oracle: an executable model of the request semantics (shared with C13a) run on the receiver's initial tree gives the expected responses and the expected final tree. distinct_nontrivial = distinct (config, event-order, expected-response-list) signatures among runs with a successful delivery.".into(),
+        rule: "end to end: every single request of the C13a request set (9 actions over 8 names, 240 requests) and every ordered pair of them (complete in thorough, every 23rd in quick) carried by a transaction over a clean link; plus seeded transactions (both modes, random knobs and sizes) carrying 1-5 filestore requests over a namespace of files and directories planted at the receiver, always including a non-idempotent append of the delivered file; faults within the C02 hypothesis, or the loss of every PDU of one kind (no delivery), or a withheld ACK(Finished) with a late re-delivery (C04 window). Oracle: an executable model of the request semantics (shared with C13a) run on the receiver's initial tree gives the expected responses and the expected final tree. distinct_nontrivial = distinct (config, event-order, expected-response-list) signatures among runs with a successful delivery.".into(),
         exhaustive: false,
         assumptions: vec!["requests are expected to run iff the receiver reported Finished(NoError, Complete, Retained)".into()],
         require: vec![("c13b_checked:responses-at-receiver".into(), 500), ("c13b_checked:responses-at-sender".into(), 200), ("c13b_runs:no-successful-delivery".into(), 50), ("c13b_runs_with_a_failing_request".into(), 100)],
